@@ -66,6 +66,8 @@ class Ctx:
 
     def clean(self):
         for name in os.listdir(self.root):
+            if name.startswith("keep"):
+                continue
             p = os.path.join(self.root, name)
             if os.path.isdir(p):
                 shutil.rmtree(p, ignore_errors=True)
